@@ -33,49 +33,7 @@ def gen(tier, seed):
     return outs, stats, rs
 
 
-def judge(V, o, r, tag="", stats=None):
-    """compares one result with the model outcome; returns True if it agreed (or differs only as permitted)"""
-    kind, val, log = langlib.expected(o)
-    feats = ",".join(f for f in langlib.features(o["p"]) if f in ("recf", "app2", "papp", "lam11", "mlist", "upd", "idx", "mpart", "effm", "big"))
-    rep = {"p": o["p"], "src": langlib.render(o["p"]), "expected": [kind, val, log], "observed": r, "alts": o.get("alts", [])}
-    if r["status"] in ("panic", "crash", "hang"):
-        where = r.get("panic_at") or r["msg"][:80]
-        V.violation("%s%s:%s" % (tag, r["status"], where), "program %s the host: %s\n%s" % (r["status"], r["msg"][:400], rep["src"]), rep)
-        return False
-    if langlib.observed_tuple(r) == (kind, val, log):
-        return True
-    # OptModel: is the observation the outcome of the program with dead bindings dropped?
-    kinds = langlib.explain_by_dead_bindings(o, r)
-    if kinds is not None:
-        if set(kinds) <= langlib.ARITH_ONLY and tag.startswith("opt"):
-            # the permitted optimisation: an unused built-in arithmetic operation was skipped
-            if stats is not None:
-                stats["permitted_arith_skips"] = stats.get("permitted_arith_skips", 0) + 1
-            return True
-        V.violation("%sdead-binding-dropped:%s" % (tag, ",".join(k for k in kinds if k not in langlib.ARITH_ONLY) or "arith"),
-                    "an unused binding whose right-hand side contains %s was not evaluated: model %s, VM %s\n%s" % (kinds, (kind, val, log), langlib.observed_tuple(r), rep["src"]), rep)
-        return False
-    if tag.startswith("opt") and len(o.get("alts", [])) < o.get("nalts", 0):
-        # some dead-binding variant of this program leaves the symbolic integer domain: the model cannot tell whether the
-        # observation is explained by the (known) dead-binding elimination; not judged under optimisation
-        if stats is not None:
-            stats["opt_inconclusive"] = stats.get("opt_inconclusive", 0) + 1
-        return True
-    if kind == "val":
-        if r["status"] != "ok":
-            V.violation("%sexpected-value:got-error:%s" % (tag, r.get("class")), "model: %s, VM failed: %s\n%s" % (val, r["msg"][:300], rep["src"]), rep)
-        elif r["value"] != val:
-            V.violation("%swrong-value:%s" % (tag, feats), "model: %s, VM: %s\n%s" % (val, r["value"], rep["src"]), rep)
-        else:
-            V.violation("%swrong-effects:%s" % (tag, feats), "model effect log %s, VM %s\n%s" % (log, r["log"], rep["src"]), rep)
-        return False
-    if r["status"] == "ok":
-        V.violation("%sexpected-error:%s:got-value" % (tag, val), "model: failure %s, VM returned %s\n%s" % (val, r["value"], rep["src"]), rep)
-    elif r.get("class") != val:
-        V.violation("%swrong-failure:%s:%s" % (tag, val, r.get("class")), "model: failure %s, VM: %s\n%s" % (val, r["msg"][:300], rep["src"]), rep)
-    else:
-        V.violation("%swrong-effects:%s" % (tag, feats), "model effect log %s, VM %s\n%s" % (log, r["log"], rep["src"]), rep)
-    return False
+judge = langlib.judge
 
 
 def run(tier):
